@@ -66,3 +66,60 @@ def experiment(g, rule, flags=(), lose=None, seed=0):
         return rec, desc
     finally:
         c.destroy()
+
+
+def fix_experiment(g, damage, rule, seed=0):
+    """kill a fix at a chosen call, run fix again, and compare with an uninterrupted fix on a twin"""
+    res = {}
+    finals = []
+    for variant in ("killed", "twin"):
+        c = g.a.clone()
+        try:
+            rec = recorder.Recorder(c, obs=g.rec.obs.clone_for(c))
+            rec.vlen.update(g.rec.vlen); rec.names |= g.rec.names
+            desc = ["fix experiment %s rule %s" % (variant, rule)]
+            for kind, i in damage:
+                if kind == "d":
+                    c.lose_disk(i)
+                else:
+                    c.lose_parity(i)
+                rec.env("lose %s%d" % (kind, i), damage=True); desc.append("lose %s%d" % (kind, i))
+            if variant == "killed":
+                r = rec.fix_killed([rule]); desc.append("fix killed rc=%s" % r.rc)
+            r, out = rec.fix(); desc.append("fix -> %s" % out["exit"])
+            final = {d: {n: (tuple(f["b"]), f["sz"], tuple(f["mt"])) for n, f in rec.lines[-1]["state"]["fs"][d].items()}
+                     for d in rec.D}
+            r, out = rec.check(); desc.append("check -> %s" % out["exit"])
+            finals.append(final)
+            if variant == "killed":
+                res = {"rec": rec, "desc": desc}
+        finally:
+            c.destroy()
+    # same file contents; only the mtime of a file whose rewrite was cut short may differ
+    diffs = []
+    k, t = finals
+    for d in t:
+        for n in set(t[d]) | set(k[d]):
+            if n not in k[d] or n not in t[d]:
+                diffs.append((d, n, "presence"))
+            elif k[d][n][:2] != t[d][n][:2]:
+                diffs.append((d, n, "content"))
+            elif k[d][n][2] != t[d][n][2]:
+                diffs.append((d, n, "mtime"))
+    res["diffs"] = diffs
+    return res
+
+
+def fix_calls(g, damage):
+    c = g.a.clone()
+    try:
+        for kind, i in damage:
+            if kind == "d":
+                c.lose_disk(i)
+            else:
+                c.lose_parity(i)
+        r = c.run("fix", trace=True)
+        calls = [e for e in r.trace if e["c"] not in ("pread", "read", "openw") and c.role(e["path"]) != "log"]
+        return len(calls), [(e["c"], c.role(e["path"])) for e in calls]
+    finally:
+        c.destroy()
